@@ -599,4 +599,13 @@ theorem headNotName_of (c : Char) (r : List Char) (h1 : c ≠ '\\') (h2 : isName
   ⟨skipLC_cons_ne c r h1, by intro c' r' e; cases e; exact h2⟩
 
 
+
+theorem word_self_delimiting_full (d : Delim) (w : Word) (e : Char) (rest : List Char)
+    (h : WordUnits.Ok .word d w (e :: rest)) (he : d.Ends e) :
+    lexWord d (printWord w ++ e :: rest) = some (w, e :: rest) := by
+  unfold lexWord
+  apply (lex_all _).2.2.2.2 .word d w e rest h he
+  simp only [List.length_append, List.length_cons]
+  omega
+
 end YashModel.Syntax
